@@ -1,6 +1,6 @@
 (* `new`: when no struct of the package embeds a struct, MakeData never looks at a generated file. *)
 From Coq Require Import List String Ascii Bool Arith Lia Permutation.
-From Shoot Require Import Model.Gen Proofs.GenBaseProofs Proofs.GenProofs.
+From Shoot Require Import Model.Gen Proofs.GenBaseProofs Proofs.GenProofs Proofs.GenSeqProofs.
 Import ListNotations.
 Local Open Scope string_scope.
 
@@ -161,4 +161,70 @@ Proof.
   intros H Hb fn h s Hin. unfold no_embeddingb in Hb. rewrite forallb_forall in Hb.
   specialize (Hb _ Hin). cbn in Hb. rewrite forallb_forall in Hb.
   apply Forall_forall. intros it Hit. specialize (Hb it Hit). destruct it; [exact I | discriminate].
+Qed.
+
+(* new -getset: every generated source is fed back through the overlay *)
+Lemma new_stale : forall c st v T d s st', c_getset c = true -> new_make c st v T = MOk d s st' -> s = true.
+Proof.
+  intros c st v T d s st' Hg H. unfold new_make, new_make_gen in H.
+  destruct (find_struct v T) as [[[fn h] sx]|]; [|discriminate].
+  unfold new_finish in H.
+  match type of H with context [make_getset_loop ?a ?b ?cc ?dd ?e] => destruct (make_getset_loop a b cc dd e) as [[[[gl sl] gi] si] ms] end.
+  injection H as _ <- _. cbn. exact Hg.
+Qed.
+
+(* C08, first sentence, for new -getset WITH embedding (no guard on the package): the all-in-one file is, declaration
+   for declaration, what -type=T produces one type at a time when each run finds the files written by the earlier
+   ones -- the overlay of the single run is that directory *)
+Theorem new_aio_is_sequential : forall c (cT : string -> cmd) hw disk fmap o st st' types sm,
+  c_getset c = true ->
+  (forall T, c_types (cT T) = [T] /\ c_file (cT T) = "" /\ c_getset (cT T) = c_getset c /\ c_json (cT T) = c_json c /\ c_opt (cT T) = c_opt c) ->
+  separate c = false ->
+  confirm_types (list_types_of CNew) c o (mk_view hw disk []) = Some (types, fmap) ->
+  NoDup (map (nm c hw fmap) types) ->
+  generate (new_make c) nrender (list_types_of CNew) c o hw disk st = Some sm ->
+  exists fs, seq_files new_make nrender c cT hw fmap st' types disk = Some fs /\
+    match sm with
+    | [] => fs = []
+    | [(n, m)] =>
+        a_decls m = flat_map a_decls fs /\ a_imports m = dedup (flat_map a_imports fs) /\
+        a_stray m = flat_map (fun f => strays (a_decls f)) fs /\ n = nm c hw fmap ""
+    | _ => False
+    end.
+Proof.
+  intros c cT hw disk fmap o st st' types sm Hg HcT Hsep Hconf Hnd Hgen.
+  assert (H3 : forall T st0 v, same_body nrender nrender (new_make c st0 v T) (new_make (cT T) st0 v T)).
+  { intros T st0 v. destruct (HcT T) as [_ [_ [Hg' [Hj Ho]]]]. apply new_cmd_sim; auto. }
+  exact (aio_is_sequential new_make nrender new_same_out (list_types_of CNew) c cT H3
+           (fun st0 v T d s st'' => new_stale c st0 v T d s st'' Hg) hw disk fmap Hsep o st st' types sm Hconf Hnd Hgen).
+Qed.
+
+(* C07 for new, outside (a superset of) the input class of K_embed_order / K_aio_overlay_stale *)
+Theorem new_run_independent : forall p c o1 o2 prior1 prior2,
+  c_sub c = CNew -> specified c = false -> no_embedding (hand_of (p_hw p)) ->
+  run_generate o1 p prior1 c = run_generate o2 p prior2 c.
+Proof.
+  intros p c o1 o2 prior1 prior2 Hc Hs Hne. unfold run_generate. rewrite Hc.
+  apply (new_unspecified_independent o1 o2 c (p_hw p) _ _ nstate0 nstate0 Hne Hs).
+Qed.
+
+From Shoot Require Import Proofs.GenSigmaProofs Proofs.GenPermProofs.
+Theorem new_permutation : forall c c' hw o disk st st',
+  no_embedding (hand_of hw) ->
+  specified c = true -> specified c' = true ->
+  Permutation (c_types c) (c_types c') -> c_file c = c_file c' -> c_sub c = c_sub c' ->
+  c_star c = false -> c_star c' = false ->
+  c_getset c = c_getset c' -> c_json c = c_json c' -> c_opt c = c_opt c' ->
+  NoDup (map (out_name hw c (spec_fmap c o (mk_view hw disk []))) (c_types c)) ->
+  match generate (new_make c) nrender (list_types_of CNew) c o hw disk st,
+        generate (new_make c') nrender (list_types_of CNew) c' o hw disk st' with
+  | Some sm, Some sm' => map nb (listing sm) = map nb (listing sm')
+  | None, None => True
+  | _, _ => False
+  end.
+Proof.
+  intros c c' hw o disk st st' Hne Hs Hs' Hp Hf Hsub H1 H2 Hg Hj Ho Hn.
+  apply (permutation_changes_no_content new_make nrender new_same_out hw (fun c0 => new_blind_at c0 _ Hne) (list_types_of CNew)
+           c c' o disk st st' Hs Hs' Hp Hf Hsub H1 H2); auto.
+  intros T st0 v. apply new_cmd_sim; auto.
 Qed.
